@@ -388,10 +388,12 @@ def c20(run):
 
 def c13(run):
     return generic_check(run, [("MC_map_w2churn.cfg", "MC_map.tla", {"timeout": 300})], [],
-        [("churn", ["map:kv16:collide:12:3000:churn", "map:kv16:zero:10:2000:churn"]),
-         ("churn2", ["map:k4v4:fewpos:14:3000:churn", "map:kv16:mixed:12:2000:churn"])],
-        [("churn3", ["map:kv16:collide:12:20000:churn"], {"tlc_timeout": 1800}),
-         ("churng", ["map:kv16:zero:10:10000:churn"], {"backend": "generic", "tlc_timeout": 1800})],
+        [("churn", ["map:kv16:zero:26:2500:churn", "map:kv16:collide:40:1500:churn"]),
+         ("churn2", ["map:k4v4:max:24:2500:churn", "map:kv16:mixed:12:1000:churn"]),
+         ("churn3", ["map:kv16:onegroup:30:2500:churn", "map:kv16:zero:10:1000:churn"])],
+        [("churn4", ["map:kv16:zero:26:20000:churn"], {"tlc_timeout": 1800}),
+         ("churn5", ["map:kv24:collide:40:20000:churn"], {"tlc_timeout": 1800}),
+         ("churng", ["map:kv16:zero:14:10000:churn"], {"backend": "generic", "tlc_timeout": 1800})],
         "model: insert/remove interleavings with bounded live size and unbounded buckets terminate with buckets <= bound; code: long churns, allocation_size bounded at every step", corpus=True)
 
 
@@ -406,7 +408,8 @@ def c14(run):
 
 def c15(run):
     return generic_check(run, [], [],
-        [("many", ["map:kv16:collide:16:1500:many", "map:k4v4:zero:10:800:many"])],
+        [("many", ["map:kv16:collide:16:1500:many", "map:k4v4:zero:10:800:many"]),
+         ("manychaos", ["map:kv16:zero:10:900:many:chaos=1", "map:kv16:collide:12:500:many:chaoseq=1"])],
         [("many2", ["map:kv24:lowbit:12:4000:many", "map:kv200:onegroup:14:3000:many"]),
          ("manyg", ["map:kv16:collide:16:3000:many"], G)],
         "random N-tuples (N = 0..4) incl. duplicates and absent keys; addresses of the returned references mapped to bucket indices and checked pairwise distinct", tgoals=True)
